@@ -208,3 +208,8 @@ pub broadcast group group_be_bytes {
     lemma_be_bytes_4,
     lemma_be_bytes_8,
 }
+
+/// b occurs in d at offset off
+pub open spec fn bytes_at(d: Seq<u8>, off: int, b: Seq<u8>) -> bool {
+    0 <= off && off + b.len() <= d.len() && b == d.subrange(off, off + b.len())
+}
